@@ -95,7 +95,7 @@ def run_shard(ctx: Ctx) -> None:
             if msg:
                 raise Violation(msg, cj)
 
-    hyp_run(ctx, CC.codec_case(ctx.tier, n_values), body, ctx.n(1600, 24000))
+    hyp_run(ctx, CC.codec_case(ctx.tier, n_values), body, ctx.n(4000, 24000))
 
 
 def replay(case: Dict[str, Any]) -> Optional[str]:
